@@ -241,6 +241,11 @@ def data_for(ts):  # noqa: C901, PLR0912, PLR0915
             if len(comps) >= 2 and rs[0]["rej"] and rs[1]["rej"]:
                 items = [rs[0]["rej"][0], rs[1]["rej"][0], *base[2:]]
                 out.append(_wrap(nm(items), mk(items)))
+                # ... of which the first is the datum user loaders of the recipes answer with an exception of their own
+                thirteen = next((d for d in A0 if d.name == "13"), None)
+                if thirteen is not None:
+                    items = [thirteen, rs[1]["rej"][0], *base[2:]]
+                    out.append(_wrap(nm(items), mk(items)))
     elif h == "Optional":
         out = list(data_for(u[1]))
     elif h == "Union":
